@@ -23,6 +23,13 @@ CHECKS = {
             "clock owned by the harness; unjudged cases (other-type commands on expired strings / emptied containers) prune the sequence", "DESIGN.md §6 C19"),
  "C05": seq("all pre-histories x all staging sequences within the bound with Batch.Get of every key after every staging step compared with a layered reference map; Commit result, reuse rejection, and the state after restart compared with the fold of the batch in issue order",
             "bounds: 3 keys, pre-history <=2-3 ops, staging <=4-6 ops incl. overflow of DataFileSize mid-way", "DESIGN.md §6 C05"),
+ "C06": seq("operation sequences with Merge (both scan orders) and restarts: reference-map oracle after every step (live, after adoption, after later restarts); after adoption the merge directory is gone and merged files hold exactly the live records, once, no tombstones; fault injection: each I/O call of Merge fails once",
+            "concurrent writers racing the merge scan are decided by the SCHED scenarios of C08; one fault per run", "DESIGN.md §6 C06"),
+ "C07": ("crash", "exhaustive enumeration of crash instants of Merge and of the adopting Open, nested (the recovery itself is crashed at each of its I/O events), plus all subsets of partially executed remove-all",
+            "every history within the bound + Merge / Merge+adopting restart: crash image after every I/O event, each recovered with the real Open and compared with the acknowledged mapping, recursively to nesting depth 2-3",
+            "process death only; file-system calls atomic and durable in order; Standard I/O", "DESIGN.md §6 C07"),
+ "C18": seq("operation sequences over varint-like / long keys, each followed by Merge (both scan orders): every hint entry is checked against the record decoded at its position; hinted keys = stored keys = live keys; differential hint-path Open vs scan-path Open (index entries, values, KeyNum)",
+            "differential open on Standard I/O", "DESIGN.md §6 C18"),
  "C10": seq("every subset of a 6-key universe x direction x index type x shard count x prefix x every call sequence (Rewind/Seek/Next/one interleaved write) within the bound, at index level and at DB level; (Valid, Key, Value) compared with a sorted-slice cursor model after every call; ListKeys and Fold compared with the same snapshot",
             "bounds: 6 keys, 10 seek targets, 5 prefixes, call sequences of 4-6 calls; backward seeks are pruned (unspecified)", "DESIGN.md §6 C10"),
  "C11": ("sweep", "exhaustive sweep of start offsets x record-length windows x write shapes at the data-file layer, format-agnostic round-trip oracle",
